@@ -645,14 +645,16 @@ class _StickyMiddleware:
             session_id = bytes.fromhex(sc.session_id)
         except ValueError:
             return False
-        # Release the per-session RLock before removal so process_response's
-        # release doesn't double-unlock.
+        # Remove and close while still holding the per-session RLock, so a call
+        # queued on this session cannot start dispatching before (or while)
+        # state.close() runs; it finds the session gone once it gets the lock.
+        hit = self._registry.close(session_id)
+        # Release here so process_response's release doesn't double-unlock.
         entry = getattr(req.context, "sticky_entry", None)
         if entry is not None and getattr(req.context, "sticky_entry_lock_acquired", False):
             with contextlib.suppress(RuntimeError):
                 entry.lock.release()
             req.context.sticky_entry_lock_acquired = False
-        hit = self._registry.close(session_id)
         # Clear the contextvar so subsequent ctx.session reads return None.
         sc_token = getattr(req.context, "sticky_session_token", None)
         if sc_token is not None:
